@@ -215,3 +215,15 @@ pub fn write_evidence(
         std::process::exit(2);
     }
 }
+
+/// Crash forensics: when VERIF_INFLIGHT names a file (set by the driver only for the single-threaded
+/// re-run after the process died), the replay document of the step about to be executed is written
+/// there first, so that whatever kills the process leaves its own replay file behind.
+pub fn inflight_note(doc: impl FnOnce() -> Json) {
+    use std::sync::OnceLock;
+    static PATH: OnceLock<Option<String>> = OnceLock::new();
+    let path = PATH.get_or_init(|| std::env::var("VERIF_INFLIGHT").ok().filter(|p| !p.is_empty()));
+    if let Some(p) = path {
+        let _ = std::fs::write(p, doc().pretty());
+    }
+}
